@@ -281,6 +281,7 @@ def relations(fam, inv, d, hidden=None):
     `hidden`: documented reading of the same response's registers for parts the model does not report (a two-tracker
     model hides ppv3/ppv4, the total is still defined over the registers of the response)."""
     out = []
+    reported = d
     d = dict(hidden or {}, **d)
     sens = {s.id_: s for s in inv.sensors()}
     for sid, s in sens.items():
@@ -300,11 +301,15 @@ def relations(fam, inv, d, hidden=None):
         parts = [k for k in ('ppv1', 'ppv2', 'ppv3', 'ppv4') if k in d]
         if len(parts) < 4:
             parts = []
-        if 'ppv' in d and parts and d['ppv'] != sum(nz(d[k]) for k in parts):
-            out.append(('ppv-is-sum-of-parts', f"ppv={d['ppv']} parts={[d[k] for k in parts]}"))
+        # a model that hides ppv3/ppv4: the total over the reported parts and the total over all four registers of the
+        # response are both accepted readings of "sum of its parts"
+        sums = {sum(nz(d[k]) for k in parts), sum(nz(reported[k]) for k in parts if k in reported)}
+        if 'ppv' in d and parts and d['ppv'] not in sums:
+            out.append(('ppv-is-sum-of-parts', f"ppv={d['ppv']} parts={[d[k] for k in parts]} (reported: {[k for k in parts if k in reported]})"))
         if has('house_consumption', 'pbattery1', 'active_power') and parts:
-            want = sum(nz(d[k]) for k in parts) + d['pbattery1'] - d['active_power']
-            if d['house_consumption'] != want:
+            wants = {x + d['pbattery1'] - d['active_power'] for x in sums}
+            want = sorted(wants)[0]
+            if d['house_consumption'] not in wants:
                 out.append(('house_consumption-formula', f"house_consumption={d['house_consumption']} expected {want} "
                             f"(active_power={d['active_power']}, pbattery1={d['pbattery1']})"))
     elif fam == 'DT':
@@ -332,6 +337,9 @@ def relations(fam, inv, d, hidden=None):
 
 
 W16 = (0, 1, 89, 90, 0x7FFF, 0x8000, 0xFFA5, 0xFFA6, 0xFFFF)
+NEIGHBOURS = {'small-2-string': dict(family='ET', tag='ETU', power=3000, refused=(), battery_mode=0),
+              'large-4-string': dict(family='ET', tag='HSB', power=50000, refused=(), battery_mode=2),
+              'single-phase-dt': dict(family='DT', tag='DSN', power=3000, refused=(), battery_mode=0)}
 
 
 def job_api(cfg):
@@ -346,6 +354,13 @@ def job_api(cfg):
     inv = r.inv
     if r.call(inv.read_device_info)[0] != 'ok':
         return 0, [dict(key=f'api/{fam}/device-info', clause='device info readable', n=1, replay=dict(kind='api', cfg=cfg), detail={})]
+    if cfg.get('neighbour'):
+        # another inverter object of another model is configured in the same process before this one is polled
+        from .. import devsim
+        nb = dict(NEIGHBOURS[cfg['neighbour']])
+        r2 = make_rig(nb, 'udp', fill=lambda a: 0, keep_world=True)
+        r2.call(r2.inv.read_device_info)
+        r2.call(r2.inv.read_runtime_data)
     vio = {}
     n = 0
 
@@ -362,7 +377,7 @@ def job_api(cfg):
                     v = refdec.decode(s, r.dev.rf.getbytes(s.offset, 2))
                     hidden[s.id_] = None if v is refdec.NOVALUE else v
         for name, cause in relations(fam, inv, st[1], hidden):
-            key = f'api:{name}/{fam}'
+            key = f'api:{name}/{fam}' + (f"/after-configuring:{cfg['neighbour']}" if cfg.get('neighbour') else '')
             vio.setdefault(key, []).append(dict(key=key, clause=name, replay=dict(kind='api', cfg=cfg, assign=assign),
                                                 detail=dict(cause=cause, registers=assign, model=cfg['tag'], rated=cfg['power'])))
     if fam == 'ES':
@@ -407,6 +422,18 @@ def api_configs(tier, seed):
             continue
         seen.add(k)
         out.append(dict(c, seed=seed))
+    return out
+
+
+def api_configs_with_neighbours(tier, seed):
+    base = api_configs(tier, seed)
+    out = list(base)
+    for i, c in enumerate(base):
+        if c['family'] == 'ES':
+            continue
+        for j, nb in enumerate(NEIGHBOURS):
+            if tier == 'thorough' or (i + j + seed) % 3 == 0:
+                out.append(dict(c, neighbour=nb))
     return out
 
 
@@ -459,7 +486,7 @@ def run(tier, seed, rep):
         total += n
         rep.add_many(res)
     napi = 0
-    acfgs = api_configs(tier, seed)
+    acfgs = api_configs_with_neighbours(tier, seed)
     for n, res in pmap(job_api, acfgs):
         napi += n
         rep.add_many(res)
